@@ -212,10 +212,14 @@ func (c *CheckCtx) Finish(wall time.Duration) int {
 		// nondeterminism that no seam owns: it is a violation by itself but replays only
 		// statistically, so it gets several attempts and is not minimised step by step.
 		uncontrolled := strings.HasSuffix(f.V.Class, "/control")
-		attempts := 1
+		// every other violation is expected to replay at once; a few more attempts are granted because a
+		// changed tree may bring nondeterminism of its own (sync.Pool, goroutines) that no seam owns -
+		// the report then says on which attempt it reproduced
+		attempts := 5
 		if uncontrolled {
 			attempts = 20
 		}
+		firstTry := true
 		reproduced := 0
 		for a := 0; a < attempts && reproduced == 0; a++ {
 			out, err := ExecuteScenario(c.Env, sc)
@@ -225,6 +229,7 @@ func (c *CheckCtx) Finish(wall time.Duration) int {
 			}
 			if hasKey(out.Violations, k) {
 				reproduced++
+				firstTry = a == 0
 			}
 		}
 		if reproduced == 0 {
@@ -254,13 +259,23 @@ func (c *CheckCtx) Finish(wall time.Duration) int {
 			min = Minimise(c.Env, sc, k, 60*time.Second)
 		}
 		detail := f.V.Detail
-		if o2, err := ExecuteScenario(c.Env, min); err == nil {
-			for _, v := range o2.Violations {
-				if v.Key() == k {
-					detail = v.Detail
-					break
+		confirmed := false
+		for a := 0; a < attempts && !confirmed; a++ {
+			if o2, err := ExecuteScenario(c.Env, min); err == nil {
+				for _, v := range o2.Violations {
+					if v.Key() == k {
+						detail = v.Detail
+						confirmed = true
+						break
+					}
 				}
 			}
+		}
+		if !confirmed {
+			min = sc // the reduced scenario does not replay reliably: report the original one
+		}
+		if !firstTry {
+			detail += " [did not replay on the first attempt: depends on nondeterminism outside the simulator's seams]"
 		}
 		path := filepath.Join(c.ReplayDir, name+".json")
 		writeJSON(path, &ReplayFile{Version: 1, Property: c.Prop, Oracle: f.V.Oracle, Class: f.V.Class, Detail: detail, Seed: c.Seed, SimIndex: f.SimIndex, Minimised: true, Original: orig, Scenario: min})
